@@ -342,7 +342,12 @@ def run_corr(comp, mode_args, inp=None, timeout=1200):
                 # and nothing is learnt from it that smaller cases do not show; counted, not evaluated
                 DISCARDED[comp["name"]] = DISCARDED.get(comp["name"], 0) + 1
                 continue
-            cases.append(json.loads(line))
+            c = json.loads(line)
+            if isinstance(c.get("out"), dict) and c["out"].get("c") == "CaseTooLarge":
+                # the harness itself gave the case up (its recorded output was growing without bound)
+                DISCARDED[comp["name"]] = DISCARDED.get(comp["name"], 0) + 1
+                continue
+            cases.append(c)
     return cases
 
 
